@@ -270,10 +270,34 @@ def importer_tables(prog: Program) -> dict:
             env = dict(base_env)
             env.update({"neighbors": neighbours(k), "perm": label,
                         "id_atom_map[atom_idx]": "c",
+                        "atom.HasProp('_chiralPermutation')": True,
                         "atom.GetUnsignedProp('_chiralPermutation')": label})
             f = Fold(env)
-            f.run(br.body)
-            c = ctor[0]
+            reached = []
+
+            def walk(stmts):
+                for st in stmts:
+                    if isinstance(st, ast.If):
+                        t = f.ev(st.test)
+                        if isinstance(st.test, ast.UnaryOp) and isinstance(
+                                st.test.op, ast.Not):
+                            inner = f.ev(st.test.operand)
+                            t = UNK if inner is UNK else (not inner)
+                        if t is UNK:
+                            raise AnalysisError(
+                                f"importer {cls}: guard "
+                                f"`{norm(st.test, 60)}` not evaluable")
+                        walk(st.body if t else st.orelse)
+                    else:
+                        f.run([st])
+                        for n in ast.walk(st):
+                            if isinstance(n, ast.Call) and call_name(n) == cls:
+                                reached.append(n)
+            walk(br.body)
+            if not reached:
+                raise AnalysisError(f"importer: no {cls}(...) on the path of "
+                                    f"label {label}")
+            c = reached[-1]
             args = list(c.args)
             kw = {x.arg: x.value for x in c.keywords}
             a = f.ev(args[0] if args else kw.get("atoms"))
